@@ -430,6 +430,10 @@ BUILTIN_BAD = [
     ("atlas", "Select(SelectMany(DS, lambda e: e.Jets('AntiKt4')), lambda j: getAttributeFloat('emf'))"),
     ("atlas", "Select(SelectMany(DS, lambda e: e.Jets('AntiKt4')), lambda j: j.getAttributeFloat('emf', 'x'))"),
     ("cms_aod", "Select(SelectMany(DS, lambda e: e.Muons('muons')), lambda m: isNonnull(m.globalTrack(), 1))"),
+    # a function invoked like a method (the receiver would be dropped)
+    ("cms_aod", "Select(SelectMany(DS, lambda e: e.Muons('muons')), lambda m: m.isNonnull(m.globalTrack()))"),
+    ("cms_miniaod", "Select(SelectMany(DS, lambda e: e.Muons('slimmedMuons')), lambda m: m.pt().isNonnull(m.globalTrack()))"),
+    ("atlas", "Select(SelectMany(DS, lambda e: e.Jets('AntiKt4')), lambda j: j.DeltaR(j.eta(), j.phi(), j.phi(), j.eta()))"),
 ]
 
 
